@@ -562,6 +562,11 @@ func (fr *frame) applyContract(d *Decl, callee *ssa.Function, sig *types.Signatu
 	}
 	if d.Kind == "extern" {
 		vc.usedExtern[d.Name] = true
+	} else if d.Has("trusted") {
+		vc.usedTrusted[d.Name] = true
+	} else if key != "" && !hasAnyProp(d.Props(), fr.rootFr.props) {
+		// a contract proved by another property's check (or by none): this check relies on it
+		vc.usedOther[d.Name] = true
 	}
 	fr.callOrd[key]++
 	ord := fr.callOrd[key]
@@ -1930,4 +1935,15 @@ func staticLocType(vc *VC, callee *ssa.Function, it modItem) types.Type {
 		return nil
 	}
 	return t
+}
+
+func hasAnyProp(a, b []string) bool {
+	for _, x := range a {
+		for _, y := range b {
+			if x == y {
+				return true
+			}
+		}
+	}
+	return false
 }
